@@ -29,6 +29,26 @@ pub(crate) enum PathSlice {
     ),
 }
 
+impl PathSlice {
+    /// whether the update path tree of this slice is that of an object or array literal
+    /// (also when a conditional may yield such a literal)
+    fn is_combination(&self) -> bool {
+        match self {
+            PathSlice::CombineObj(..) | PathSlice::CombineArr(..) => true,
+            PathSlice::Condition(_, (true_pas, _), (false_pas, _)) => {
+                let ends_with_combination = |pas: &PathAnalysisState| match pas {
+                    PathAnalysisState::InPath(psl) => {
+                        psl.0.last().map(|x| x.is_combination()).unwrap_or(false)
+                    }
+                    PathAnalysisState::NotInPath => false,
+                };
+                ends_with_combination(true_pas) || ends_with_combination(false_pas)
+            }
+            _ => false,
+        }
+    }
+}
+
 #[derive(Debug)]
 pub(crate) struct PathSliceList(Vec<PathSlice>);
 
@@ -237,10 +257,7 @@ impl PathSliceList {
         for path_slice in self.0.iter() {
             // the update path tree of an object or array literal is a combination of the trees of its parts,
             // which cannot be indexed like data: a member of a literal is changed whenever any part is
-            let is_combination = matches!(
-                path_slice,
-                PathSlice::CombineObj(..) | PathSlice::CombineArr(..)
-            );
+            let is_combination = path_slice.is_combination();
             if prev_is_combination {
                 if let PathSlice::StaticMember(_) | PathSlice::IndirectValue(_) = path_slice {
                     ret = format!("!!({})", ret);
